@@ -993,7 +993,10 @@ def strip_fn_head(toks, hits):
         if t.text == '#' and i + 1 < n and toks[i + 1].text == '[':
             e = match_close(toks, i + 1) + 1
             name = toks[i + 2].text
-            if name in DROP_ATTRS:
+            # `#[cfg_attr(<cfg>, doc = ..)]` is a conditional doc attribute
+            cond_doc = name == 'cfg_attr' and any(toks[k].text == 'doc' and toks[k + 1].text == '=' for k in range(i + 3, e - 2)
+                                                   if toks[k - 1].text == ',')
+            if name in DROP_ATTRS or cond_doc:
                 hits['R3'] = hits.get('R3', 0) + 1
                 i = e
                 continue
